@@ -140,6 +140,9 @@ int64_t interp_i64(struct jls_tmap_s * self, int64_t x0, int64_t const * x, int6
     double dk = (double) (x0 - x[low]);
     double ds = (double) (x[low + 1] - x[low]);
     double dt = (double) (y[low + 1] - y[low]);
+    if (ds == 0.0) {
+        return y[low];  // equal anchors (e.g. two UTC entries with the same time): no slope
+    }
     double slope = dt / ds;
     int64_t k = (int64_t) round(dk * slope);
     return y[low] + k;
